@@ -328,3 +328,58 @@ T("C20", "twin-netbios-decoder-expanded-polynomial", U, DEC_BODY, "    return by
 M("C20", "netbios-decoder-expanded-polynomial-16", U, DEC_BODY, "    return bytes([16 * data[i] + data[i + 1] - 16 * offset for i in range(0, len(data), 2)])\n", "C20.R6")
 M("C20", "netbios-decoder-full-range", U, DEC_BODY, DEC_HALF.replace("range(len(data) // 2)", "range(len(data))"), "C20.R6")
 T("C20", "twin-netbios-decoder-shift-range", U, DEC_BODY, DEC_HALF.replace("range(len(data) // 2)", "range(len(data) >> 1)"))
+
+# ============================================================================================================ wave 2
+# ---- R7: pack() is total on the range representable at the width (raise paths read as symbolic interval regions)
+PACK_SIZE_NONE = "    if size is None:\n        size = (n.bit_length() + 7) // 8\n"
+PACK_CHECKED = (
+    PACK_SIZE_NONE + "    else:\n        limit = 1 << (size * 8)\n"
+    "        fits = -(limit >> 1) <= n < (limit >> 1) if signed else 0 <= n < limit\n"
+    '        if not fits:\n            raise OverflowError(f"{n:#x} does not fit in {size} byte(s)")\n'
+    "    return n.to_bytes(size, byteorder=byteorder, signed=signed)\n"
+)
+PACK_CHECKED_LOHI = (
+    "    if size is not None:\n"
+    "        lo, hi = (-(2 ** (8 * size - 1)), 2 ** (8 * size - 1) - 1) if signed else (0, 256 ** size - 1)\n"
+    '        if n < lo or n > hi:\n            raise OverflowError("value out of range for the requested width")\n'
+    "    else:\n        size = (n.bit_length() + 7) // 8\n"
+    "    return n.to_bytes(size, byteorder=byteorder, signed=signed)\n"
+)
+T("C20", "twin-pack-range-check-exact", U, PACK_BODY, PACK_CHECKED)
+T("C20", "twin-pack-range-check-lo-hi-powers", U, PACK_BODY, PACK_CHECKED_LOHI)
+T("C20", "twin-pack-rejects-negative-unsigned", U, PACK_BODY, '    if n < 0 and not signed:\n        raise OverflowError("cannot pack a negative integer unsigned")\n' + PACK_BODY)
+T("C20", "twin-pack-rejects-unknown-byteorder", U, PACK_BODY, '    if byteorder not in ("little", "big"):\n        raise ValueError("byteorder must be little or big")\n' + PACK_BODY)
+T("C20", "twin-pack-range-check-bit-length-undecided", U, PACK_BODY,
+  '    if size is not None and not signed and n.bit_length() > size * 8:\n        raise OverflowError("int too big to convert")\n' + PACK_BODY)
+M("C20", "pack-range-check-unsigned-excludes-zero", U, PACK_BODY, PACK_CHECKED.replace("0 <= n < limit", "0 < n < limit"), "C20.R7")
+M("C20", "pack-range-check-signed-max-excluded", U, PACK_BODY, PACK_CHECKED_LOHI.replace("n > hi", "n >= hi"), "C20.R7")
+M("C20", "pack-range-check-signed-uses-unsigned-half", U, PACK_BODY, PACK_CHECKED_LOHI.replace("(0, 256 ** size - 1)", "(0, 2 ** (8 * size - 1) - 1)"), "C20.R7")
+M("C20", "pack-asserts-positive", U, PACK_BODY, '    assert signed or n > 0, "unsigned packing needs a positive integer"\n' + PACK_BODY, "C20.R7")
+
+# ---- R4: sentinel-controlled retry loops (the value carried out of a `while` is the term its last iteration assigned)
+LOOP_SENTINEL = (
+    '    found = ""\n    while not found:\n        attempt = "/" + "".join([random.choice(chars) for _ in range(length)])\n'
+    "        if is_stager(attempt):\n            found = attempt\n    return found\n"
+)
+LOOP_FLAG = (
+    '    done = False\n    while not done:\n        uri = "/" + "".join(random.choice(chars) for _ in range(length))\n'
+    "        done = is_stager(uri)\n    return uri\n"
+)
+T("C20", "twin-rsu-sentinel-loop", U, RSU_LOOP, LOOP_SENTINEL)
+T("C20", "twin-rsu-done-flag-loop", U, RSU_LOOP, LOOP_FLAG)
+T("C20", "twin-rsu-sentinel-loop-if-else-selection", U, "", "", edits=[
+    (U, RSU_SEL, "    if x64:\n        is_stager = is_stager_x64\n    else:\n        is_stager = is_stager_x86\n"), (U, RSU_LOOP, LOOP_SENTINEL)])
+M("C20", "rsu-sentinel-loop-keeps-failures", U, RSU_LOOP, LOOP_SENTINEL.replace("if is_stager(attempt):", "if not is_stager(attempt):"), "C20.R4")
+M("C20", "rsu-sentinel-loop-fresh-value", U, RSU_LOOP, LOOP_SENTINEL.replace("            found = attempt\n", '            found = "/" + "".join([random.choice(chars) for _ in range(length)])\n'), "C20.R4")
+M("C20", "rsu-done-flag-loop-or-long", U, RSU_LOOP, LOOP_FLAG.replace("done = is_stager(uri)", "done = is_stager(uri) or length > 8"), "C20.R4")
+M("C20", "rsu-sentinel-loop-one-char-short", U, RSU_LOOP, LOOP_SENTINEL.replace("range(length)", "range(length - 1)"), "C20.R4")
+
+# ---- R3: summing loops are read as sum(..)
+C8_LOOP = '    if len(text) < 4:\n        return 0\n    acc = 0\n    for ch in text.replace("/", ""):\n        acc = acc + ord(ch)\n    return acc % 256\n'
+C8_LOOP_FILTER = '    if len(text) < 4:\n        return 0\n    acc = 0\n    for ch in text:\n        if ch != "/":\n            acc += ord(ch)\n    return acc & 0xFF\n'
+T("C20", "twin-checksum-accumulator-loop", U, C8_BODY, C8_LOOP)
+T("C20", "twin-checksum-accumulator-loop-filter", U, C8_BODY, C8_LOOP_FILTER)
+M("C20", "checksum-accumulator-loop-keeps-slash", U, C8_BODY, C8_LOOP.replace('text.replace("/", "")', "text"), "C20.R3")
+M("C20", "checksum-accumulator-loop-filter-backslash", U, C8_BODY, C8_LOOP_FILTER.replace('ch != "/"', 'ch != "\\\\"'), "C20.R3")
+M("C20", "checksum-accumulator-loop-mod-255", U, C8_BODY, C8_LOOP.replace("acc % 256", "acc % 255"), "C20.R3")
+M("C20", "checksum-accumulator-loop-starts-at-one", U, C8_BODY, C8_LOOP.replace("acc = 0\n", "acc = 1\n"), "C20.R3")
